@@ -61,9 +61,26 @@ class Monitor:
         from pydcop.infrastructure.discovery import Discovery
 
         mon = self
-        self.wrap_method(MessagePassingComputation, "start", "start")
-        self.wrap_method(MessagePassingComputation, "on_message", "on_message")
-        self.wrap_method(MessagePassingComputation, "pause", "pause")
+        # the base class and every subclass that overrides one of the entry points (e.g. the management computations
+        # define their own on_message). A subclass override usually calls super(): nested records on the same thread are fine.
+        import pydcop.infrastructure.orchestrator  # noqa: make sure the subclasses exist
+        import pydcop.infrastructure.orchestratedagents  # noqa
+        import pydcop.replication.dist_ucs_hostingcosts  # noqa
+
+        def subclasses(c):
+            out = [c]
+            for sc in c.__subclasses__():
+                out.extend(subclasses(sc))
+            return out
+
+        seen = set()
+        for cls in subclasses(MessagePassingComputation):
+            if cls in seen:
+                continue
+            seen.add(cls)
+            for name in ("start", "on_message", "pause"):
+                if name in vars(cls):
+                    self.wrap_method(cls, name, name)
         Agent = agents_mod.Agent
         orig_add = Agent.add_computation
 
@@ -162,6 +179,15 @@ def solve_scenario(job, monitor=None):
 
         spec = job["spec"]
         dist_error = None
+        # own the algorithms' randomness (first answer of every draw): executions must be reproducible
+        from vf.core import choice as choice_mod
+        import pydcop.dcop.relations as _rel
+        import pydcop.infrastructure.computations as _comp
+        import pydcop.infrastructure.agents as _agents
+
+        for mod in (load_algorithm_module(job["algo"]), _rel, _comp, _agents):
+            choice_mod.install(mod)
+        choice_mod.set_controller(choice_mod.Controller())
         dcop = make_dcop(spec, job["agents"])
         algo_module = load_algorithm_module(job["algo"])
         algo = AlgorithmDef.build_with_default_param(job["algo"], dict(job.get("params", {})), mode=spec.get("mode", "min"))
